@@ -231,6 +231,8 @@ def run_stream(case, rec):
     enc = sym.lib_new(spec)
     seek = case.get("seek")
     if seek is not None:
+        if seek + len(pt) > (1 << (70 if len(spec["nonce"]) == 8 else 38)):
+            raise Skip()        # crosses the end of the key stream: the limit behaviour is C11's subject
         enc.seek(seek)
         ks = stream.chacha20_stream(spec["key"], spec["nonce"], len(pt), start_block=seek // 64, start_offset=seek % 64)
         exp = bytes(a ^ b for a, b in zip(pt, ks))
